@@ -133,6 +133,40 @@ func gid() int64 {
 	return id
 }
 
+// GoroutineID returns the id of the calling goroutine (to ask BlockedOnLock about it later).
+func GoroutineID() int64 { return gid() }
+
+// BlockedOnLock reports whether goroutine g is waiting for a sync lock (Mutex / RWMutex) in a call whose stack
+// contains frame: the deterministic form of "the thread ran until it blocked on that lock" for scripted schedules
+// (no gate can be placed at a lock acquisition inside the code under test).
+func BlockedOnLock(g int64, frame string) bool {
+	buf := make([]byte, 1<<20)
+	for {
+		n := runtime.Stack(buf, true)
+		if n < len(buf) {
+			buf = buf[:n]
+			break
+		}
+		buf = make([]byte, 2*len(buf))
+	}
+	head := fmt.Sprintf("goroutine %d [", g)
+	for _, blk := range strings.Split(string(buf), "\n\n") {
+		if !strings.HasPrefix(blk, head) {
+			continue
+		}
+		state := blk[len(head):]
+		if i := strings.IndexAny(state, "],"); i >= 0 {
+			state = state[:i]
+		}
+		switch state {
+		case "sync.Mutex.Lock", "sync.RWMutex.Lock", "sync.RWMutex.RLock", "semacquire":
+			return strings.Contains(blk, frame)
+		}
+		return false
+	}
+	return false
+}
+
 // BindThread names the calling goroutine.
 func (w *World) BindThread(name string) {
 	w.mu.Lock()
